@@ -1381,6 +1381,18 @@ impl Engine for Net {
                 let exp = expected_report(&specs);
                 if got != exp && (got == "ok" || got.starts_with("deadlock") || got.starts_with("message-loss")) {
                     out.monitor.push(("C06".into(), format!("`{l}` returned `{got}` but the mailboxes hold: `{exp}` (pushes − pops per mailbox)")));
+                    if got.starts_with("deadlock ") && exp.starts_with("deadlock ") {
+                        // same numbers of queued messages under other names: a model of a hierarchy is reported under the
+                        // wrong qualified name (C16: a sub-model is known as `parent.child` in error reports)
+                        let counts = |s: &str| {
+                            let mut v: Vec<String> = s["deadlock ".len()..].split(',').map(|x| x.rsplit(':').next().unwrap_or("").to_string()).collect();
+                            v.sort();
+                            v
+                        };
+                        if counts(&got) == counts(&exp) {
+                            out.monitor.push(("C16".into(), format!("`{l}`: the deadlock report is `{got}` but the mailboxes that hold these messages belong to `{exp}` (a model of a hierarchy is reported under another model's name)")));
+                        }
+                    }
                 }
             }
             // ---- monitors
@@ -1740,7 +1752,7 @@ fn gen_case(rng: &mut Rng, _idx: usize, tier: Tier, focus: &str) -> Case {
         depth.push(p.map(|x| depth[x] + 1).unwrap_or(0));
         parent.push(p);
     }
-    let stall = if focus == "C06" { rng.below(4) } else if rng.chance(1, 5) { rng.range(1, 3) } else { 0 };
+    let stall = if focus == "C06" { rng.below(4) } else if rng.chance(1, if focus == "C16" { 3 } else { 5 }) { rng.range(1, 3) } else { 0 };
     let with_orphan = rng.chance(1, 6) || (focus == "C06" && rng.chance(1, 2));
     let names = ["a", "b", "c", "d", "e", "f", "g", "h"];
     let mut caps = Vec::new();
